@@ -8,6 +8,8 @@ from __future__ import annotations
 
 import itertools
 
+import numpy as np
+
 from symx.oracle import (AND, EQ, IFF, IMPLIES, ITE, NOT, OR, cumsum0, int_in_range, kth, locate, sel_len, selected,
                          triple, view_identity, view_index)
 from symx.runner import Instance
@@ -333,6 +335,40 @@ def _program_body(E, w, prog):
     same_array(E, catalog.computed(E, w, m), prog.ref, label="computed-values", skolem="pc")
 
 
+def inst_refusal(kind):
+    """index forms the implementation does not support must raise, not return data: an integer dask array next to a list /
+    NumPy array index on another axis, or two list indices (x's chunk sizes symbolic)"""
+    def body(E):
+        from . import catalog
+
+        w = catalog.W(E)
+        x = catalog.source(w, E, "x", (2, 2))
+        coll = w.fn(catalog.NC, "new_collection")(x.node)
+        if kind.startswith("dask-int"):
+            import dask_array.io._from_array as FAm
+            from symx.sarr import leaf
+
+            n = E.int("m", 1)
+            meta = np.empty((0,), dtype="i8")
+            node = w.space.make(FAm.FromArray, leaf("ix", (n,), dtype="i8"), ((n,),), _symx_attrs=dict(_meta=meta, chunks=((n,),), _name="ix"))
+            ix = w.fn(catalog.NC, "new_collection")(node)
+            other = [0, 1] if kind == "dask-int+list" else np.array([0, 1])
+            index = (ix, other)
+        else:
+            index = ([0, 1], [1, 0])
+        try:
+            out = coll[index]
+        except NotImplementedError:
+            E.ensure("unsupported-index-raises", True)
+            return
+        except IndexError:
+            E.ensure("refused-as-unsupported-not-as-out-of-bounds", False)
+            return
+        E.ensure("unsupported-index-raises", False)
+
+    return Instance(f"refusal[{kind}]", body, dict(kind=kind), unit="Array.__getitem__ + slice_with_int_dask_array (guards)")
+
+
 def _program_instances(tier):
     from . import catalog
 
@@ -387,6 +423,8 @@ def instances(tier):
     for b, s in two:
         out.append(inst_index(b, s))
     out.extend(_program_instances(tier))
+    for kind in ("dask-int+list", "dask-int+ndarray", "list+list"):
+        out.append(inst_refusal(kind))
     out.append(inst_vindex_bounds(1, 1))
     out.append(inst_vindex_bounds(2, 1))
     out.append(inst_vindex_bounds(2, 2))
